@@ -123,6 +123,24 @@ def run(chk):
                 chk.add_report(f"{name}:{kind}:ns={ns}:nv={nv}", rep)
                 rep["by_sig"] = {s: v for s, v in rep["by_sig"].items() if s.split(":", 1)[1] not in base_sigs}
                 chk.classify("tracker", args, rep)
+    # VisualSORT batches with own-area gates (shares are computed per scene inside the batch loop): the batch tracker
+    # against the simple tracker on the same behaviours
+    vkw = dict(depth=5, Sim=12, OwnUse=50, OwnCollect=50, Kind="batch", Scenes={1, 2}, Slots={1, 2}, Confs={900, 800}, Feats={1}, Quals={90}, MaxDets=2)
+    r, c = tc.generate_visual(chk, "v-own-batch", simulate={"num": 12 if quick else 150, "depth": 6}, **vkw)
+    n_before = len(chk.violations)
+    base = tc.replay_visual(chk, "v-own-batch:simple-baseline", r, c, "visual", 2, "all", "nt_C06")
+    del chk.violations[n_before:]          # the simple tracker is not judged here
+    base_sigs = {s.split(":", 1)[1] for s in base["by_sig"]}
+    extra = ["--max-obs", str(c["MaxObs"]), "--min-track-len", str(c["MinTrackLen"]), "--min-votes", str(c["MinVotes"]),
+             "--q-use", str(c["QUse"] / 100.0), "--q-collect", str(c["QCollect"] / 100.0), "--vis-thr", str(c["VisThr"] / 10.0),
+             "--own-use", str(c["OwnUse"] / 100.0), "--own-collect", str(c["OwnCollect"] / 100.0)]
+    for ns, nv in (((2, 2),) if quick else ((1, 1), (2, 3))):
+        args = tc.vh_args(c, "batchvisual", ns, "all", voters=nv) + extra
+        rep = vlib.run_vh(args, [r.out])
+        rep["nontrivial"] = rep["counters"].get("nt_C06", 0)
+        chk.add_report(f"v-own-batch:batchvisual:ns={ns}:nv={nv}", rep)
+        rep["by_sig"] = {s: v for s, v in rep["by_sig"].items() if s.split(":", 1)[1] not in base_sigs}
+        chk.classify("tracker", args, rep)
     chk.finish(RULE, exhaustive=False)
 
 
